@@ -952,8 +952,8 @@ def g_chain(rng, sh):
     elif r < 52:
         # sparse contexts -> SparseDense rows (Densify) -> held by a cache -> a filter that writes into contexts
         forced = ([] if sh["ctx"] == "sparse" else ["sparse!"]) + ["dense!", holder, ["scale", "scale", "impute", "noise", "flatten", "repr"]]
-    elif r < 57:
-        forced = ["sparse", "dense"]
+    elif r < 57 or (sh["ctx"] == "nested" and r < 80):
+        forced = ["sparse", "dense"] if sh["ctx"] != "nested" else [holder, "flatten"]
     elif r < 62 or (sh["ctx"] == "densenone" and r < 85):
         forced = ["impute"] if rng.chance(0.5) else [holder, "impute"]
     elif r < 66:
@@ -1638,6 +1638,31 @@ class C04(Property):
         cs.append({"src": dict(lin, n=7), "chain": [{"m": "batch", "a": [5]}, {"m": "shuffle", "a": [0]}, {"m": "reservoir", "a": [3, 5, False]}],
                    "hist": [full, {"op": "save", "on": 0}, {"op": "full", "on": 1}, part(1, 1), full]})
         cs.append({"src": dict(lin, n=7), "chain": [{"m": "batch", "a": [5]}], "hist": [full, {"op": "save", "on": 0}, {"op": "full", "on": 1}, {"op": "pickle", "on": 1}, {"op": "full", "on": 2}]})
+        # data held by cache()/materialize() before every kind of filter that changes contexts / actions / rewards, for every
+        # kind of context (list, tuple, sparse dict, SparseDense from dense(), nested, scalar, missing values, lazy csv rows)
+        def lamc(ctxs, acts=None):
+            return dict(lam, n=6, ctxs=ctxs, acts=acts or [["x", "y", "z"]])
+        kinds = [
+            ("list", lamc([[1, 2], [3, 5], [0.5, 7]]), []),
+            ("tuple", lamc([{"t": [1, 2]}, {"t": [3, 5]}, {"t": [0.5, 7]}]), []),
+            ("sparse", lamc([{"d": [["a", 1], ["b", 4]]}, {"d": [["a", 3], ["c", 2]]}, {"d": [["b", 8], ["c", 6]]}]), []),
+            ("sparsedense", lamc([{"d": [["a", 1], ["b", 4]]}, {"d": [["a", 3], ["c", 2]]}, {"d": [["b", 8], ["c", 6]]}]), [{"m": "dense", "a": [4, "lookup"]}]),
+            ("sparsedense-xy", {"kind": "sup_xy", "X": [{"d": [["a", 1.0], ["b", 4.0]]}, {"d": [["a", 3.0], ["c", 2.0]]}, {"d": [["b", 8.0], ["c", 6.0]]}, {"d": [["a", 5.0], ["b", 2.0], ["c", 4.0]]}],
+                                "Y": ["x", "y", "x", "y"], "label_type": "c"}, [{"m": "dense", "a": [4, "lookup"]}]),
+            ("nested", lamc([[1, [2, 3]], [4, [5, 6]]]), []),
+            ("value", lamc([1, 3, 0.5]), []),
+            ("none", lamc([[1, None], [None, 4], [0.5, 7], [2, 2]]), []),
+            ("lazy", csv, []),
+            ("onehot-actions", lamc([[1, 2], [3, 5]], [[{"t": [1, 0, 0]}, {"t": [0, 1, 0]}, {"t": [0, 0, 1]}]]), []),
+        ]
+        mutators = [{"m": "scale", "a": [1, 2, "context", None]}, {"m": "scale", "a": [0, 0.5, "context", None]}, {"m": "impute", "a": ["mean", True, None]},
+                    {"m": "noise", "k": {"context": {"t": ["i", 1, 2]}, "reward": {"t": ["i", 1, 1]}, "seed": 2}}, {"m": "repr", "a": ["onehot", "string"]},
+                    {"m": "flatten"}, {"m": "sparse", "a": [True, True]}, {"m": "cycle", "a": [0]}, {"m": "binary"}, {"m": "sort", "a": []},
+                    {"m": "grounded", "a": [3, 2, 4, 2, 1]}, {"m": "batch", "a": [2]}]
+        for _, src, pre in kinds:
+            for holder in ({"m": "cache"}, {"m": "materialize"}):
+                for mut in mutators:
+                    cs.append({"src": src, "chain": pre + [holder, mut], "hist": [full, full, par]})
         # empty environments (EmptyCheck), densify lookup
         cs.append({"src": dict(lin, n=0), "chain": [], "hist": [full, full, par, {"op": "materialize", "on": 0}, {"op": "full", "on": 1}]})
         cs.append({"src": lin, "chain": [{"m": "take", "a": [0, False]}], "hist": [full, part(1), full]})
